@@ -116,7 +116,9 @@ Record pre := mkPre {
   p_used : N;                    (* parity_used_size after the scan *)
   p_parity_access : list bool;   (* per level: the parity file can be created/opened *)
   p_parity_blocks : list N;      (* per level: size on disk / block size (absent = 0) *)
-  p_parity_resize : list bool;   (* per level: size on disk <> blockmax * block size *)
+  p_parity_resize : list bool;   (* per level: size on disk <> blockmax * block size: parity_chsize changes the file *)
+  p_parity_modified : list bool; (* per level: parity_chsize reports is_modified (resulting size <> size recorded in the
+                                    content file; a 'P' record -- single-file parity -- records no size: always modified) *)
   p_prehash_fail : bool;
   p_sync_stripes : list N;       (* positions the sync loop writes *)
   p_sync_errors : bool;
@@ -209,7 +211,8 @@ Definition sync_body (o : opts) (p : pre) : list effect * exitclass :=
   else if o_prehash o && p_prehash_fail p then ([], ExErrors)                         (* skip_sync *)
   else
     let rsz := resize_effects (p_parity_resize p) (levels p) (fun _ => false) in
-    let nw1 := p_read_need_write p || p_scan_need_write p || negb (match rsz with [] => true | _ => false end) in
+    let nw1 := p_read_need_write p || p_scan_need_write p
+               || existsb (fun l => nth_bool (p_parity_modified p) l false) (levels p) in                 (* sync.c:1551 *)
     let w1 := if negb (o_skip_content_write o) && nw1 then all_content p else [] in
     let bmax := if negb (is0 (o_blockcount o)) && N.ltb (o_blockstart o + o_blockcount o) (p_blockmax p)
                 then o_blockstart o + o_blockcount o else p_blockmax p in
